@@ -342,7 +342,7 @@ func genConfig(r *vlib.R) string {
 	}
 	crl := 0
 	if rl {
-		crl = vlib.Pick(r, []int{2, 3, 4})
+		crl = vlib.Pick(r, []int{2, 3, 4, 8})
 	}
 	erl := 0
 	if r.Chance(1, 4) {
@@ -643,7 +643,12 @@ func gen(r *vlib.R, n int, tier string, emit func(string)) {
 			m = 15 + r.Intn(15)
 		}
 		for i := 0; i < m && budget > 0; i++ {
-			if r.Chance(1, 4) && erlOf(cfgLine) == 0 {
+			// (histories below are not steered to fresh entry-limiter buckets: erl = 0 only)
+			if strings.Contains(cfgLine, "ratelimit") && erlOf(cfgLine) == 0 && r.Chance(1, 3) {
+				emit(genSeq(r, &k))
+			} else if erlOf(cfgLine) == 0 && r.Chance(1, 10) {
+				emit(genMix(r, &k))
+			} else if r.Chance(1, 4) && erlOf(cfgLine) == 0 {
 				// (raw shapes cannot be steered away from used entry-limiter buckets)
 				emit(genRaw(r, &k))
 			} else {
@@ -653,4 +658,31 @@ func gen(r *vlib.R, n int, tier string, emit func(string)) {
 		}
 	}
 	emit("e2e stop")
+}
+
+// genSeq: a cookie-rotation history of one client (transport x client cookie x
+// with/without the server half), 3-7 steps.
+func genSeq(r *vlib.R, k *int) string {
+	nsteps := 3 + r.Intn(5)
+	var steps []string
+	for i := 0; i < nsteps; i++ {
+		c := vlib.Pick(r, []string{"A", "A", "B", "B", "C"})
+		if i > 0 && r.Chance(1, 3) {
+			c = steps[i-1][1:2] // stay with the previous cookie
+		}
+		steps = append(steps, vlib.Pick(r, []string{"u", "u", "t"})+c+vlib.Pick(r, []string{"0", "0", "1", "1", "s"}))
+	}
+	return fmt.Sprintf("e2e seq name=pos.%s-@.zt. qt=1 id=%d do=%d v6=%d ord=%d steps=%s", uniq(r, k), r.Intn(65536), r.Intn(2), b2i(r.Chance(1, 5)), r.Intn(3), strings.Join(steps, ","))
+}
+
+// genMix: mixed-validation alias chain — alias AD x target AD at admission x
+// AD of the target re-admitted after its shorter TTL ran out.
+func genMix(r *vlib.R, k *int) string {
+	mix := fmt.Sprintf("%d%d%d", r.Intn(2), r.Intn(2), r.Intn(2))
+	if r.Chance(1, 2) {
+		mix = vlib.Pick(r, []string{"110", "111", "101", "100"})
+	}
+	flag := vlib.Pick(r, []string{"do=1", "ad=1", "do=1 ad=1", "do=0", "do=1 cd=1"})
+	return fmt.Sprintf("e2e q mix=%s name=%s.%s-@.zt. qt=1 id=%d usz=1232 %s ck=- proto=%s warm=%s rep=%d ord=%d", mix, mixCase(r, "cnv"), uniq(r, k),
+		r.Intn(65536), flag, vlib.Pick(r, []string{"udp", "tcp"}), vlib.Pick(r, []string{"raw", "msg"}), 1+r.Intn(2), r.Intn(4))
 }
